@@ -41,10 +41,25 @@ def _known_discr(pt):
     x = mir.strip_all(pt)
     if isinstance(x, tuple) and x and x[0] == "agg" and (x[1], x[2]) in _RO:
         return _RO[(x[1], x[2])]
+    r = _residual_kind(x)
+    if r is not None:
+        return 1 if r == "Err" else 0
     if isinstance(x, tuple) and x and x[0] == "call" and x[1].endswith("as core::ops::try_trait::Try>::branch") and len(x[2]) == 1:
         a = mir.strip_all(x[2][0])
         if isinstance(a, tuple) and a and a[0] == "agg" and (a[1], a[2]) in _RO:
             return 0 if a[2] in ("Ok", "Some") else 1
+        if _residual_kind(a) is not None:
+            return 1
+    return None
+
+
+def _residual_kind(x):
+    """`FromResidual::from_residual` of Result / Option always builds Err / None (the value an inlined helper returns from `?`)"""
+    if isinstance(x, tuple) and x and x[0] == "call" and isinstance(x[1], str) and x[1].endswith("::from_residual"):
+        if x[1].startswith("<core::result::Result<"):
+            return "Err"
+        if x[1].startswith("<core::option::Option<"):
+            return "None"
     return None
 
 
